@@ -38,7 +38,7 @@ def junk_family():
 
 def run(ctx, out):
     dcheck.run_property(ctx, out, "C08", "mon_c08", n_quick=300, n_thorough=5000,
-                        gen_kw=dict(auth=True, ws_share=0.35, batches=0.08, malformed=0.02, timers=False), directed=junk_family() + directed.reauth() + directed.reauth_after_fetch() + directed.no_groups_file())
+                        gen_kw=dict(auth=True, ws_share=0.35, batches=0.08, malformed=0.02, timers=False), directed=junk_family() + directed.reauth() + directed.reauth_after_fetch() + directed.no_groups_file() + directed.locked_accounts())
     dcheck.run_more(ctx, out, "C08", "mon_c08", n_quick=120, n_thorough=1500,
                     gen_kw=dict(variant="localonly", ws_share=0.3, timers=False), tag="localonly")
     # origin classification: the real is_localhost / accept path against Cjet.Accept (every byte of the loopback patterns perturbed)
